@@ -52,8 +52,8 @@ def main():
 	for leg, seed in items:
 		if check.leg_mode(leg) != "fork":
 			continue
-		a = check.run_case(check.gen_case(leg, seed, tier)).digest
-		b = check.run_case(check.gen_case(leg, seed, tier)).digest
+		a = runner.run_one(check, check.gen_case(leg, seed, tier)).digest
+		b = runner.run_one(check, check.gen_case(leg, seed, tier)).digest
 		d1[(leg, seed)] = a
 		if a != b:
 			bad += 1
